@@ -42,9 +42,10 @@ ASSUMPTIONS = [
     'Kani/CBMC model of the compiled code (dev profile, Kani pinned toolchain); unwinding assertions on',
     'arrays bounded as stated per obligation; longer arrays outside the claim (codecs are uniform in N: argued, not decided)',
     'referent arrays: -1 <= r < 2^30',
-    'LZ4/Zstandard bodies, database-known property routing and whole-DOM round trips are outside the K obligations',
+    'LZ4/Zstandard bodies are outside (compression off in the M obligations; decompressors are stubs)',
+    'M obligations (MIR symbolic execution of Serializer::serialize followed by Deserializer::deserialize): unknown classes with an empty database, forests of <= 5 instances, 2 instances per value column, one property besides Name; CFrame matrices away from the basic rotations; SharedString / OptionalCFrame / UniqueId / Font / Content / Tags / Attributes values, database-known property routing, default filling and Color3 -> Color3uint8 quantisation through known properties are outside',
 ]
-TRUSTED = ['rustc (Kani toolchain)', 'Kani 0.68 / CBMC 6.11 / cadical', 'docs/binary.md formulas as transcribed in kani/rbx_binary.rs']
+TRUSTED = ['rustc (Kani toolchain)', 'Kani 0.68 / CBMC 6.11 / cadical', 'docs/binary.md formulas as transcribed in kani/rbx_binary.rs', 'rustc nightly MIR + vlib/mirsym interpreter, std contract models, z3 (M obligations)']
 RULE = 'each obligation is one Kani proof harness over kani::any() inputs decided by CBMC; non-trivial = its kani::cover! witness was satisfied (or, for twins, the expected failure was reported)'
 
 
@@ -54,5 +55,13 @@ def run(tier, seed, t0, only=None):
     hs = harnesses(tier)
     if only:
         hs = [h for h in hs if any(h.oid.startswith(o) for o in only)]
-    obs = K.run_harnesses(hs, tier)
+    obs = K.run_harnesses(hs, tier) if hs else []
+    from ..mirsym import binrun, sercheck
+    from . import bingroups
+    ss = bingroups.ser_groups(tier, 'C01')
+    if only:
+        ss = [g for g in ss if any(g['id'].startswith(o) for o in only)]
+    if ss:
+        binrun.refresh_mir()
+        obs += binrun.run(ss, ('C01',), module=sercheck)
     return C.finish('C01', tier, seed, obs, t0, ASSUMPTIONS, TRUSTED, RULE)
